@@ -86,7 +86,12 @@ pub fn run(c: &Campaign, out: &mut ExtraOut) -> bool {
     out.samples.push(json!({"kind": "libfuzzer-campaign", "target": c.target, "focus": c.id, "execs": execs, "jobs": c.jobs,
         "new_corpus_units": corpus_units, "seed": c.seed + 1}));
 
-    let arts: Vec<PathBuf> = std::fs::read_dir(&artifacts).map(|d| d.flatten().map(|e| e.path()).filter(|p| p.is_file()).collect()).unwrap_or_default();
+    // libFuzzer also drops `slow-unit-*` files there (inputs slower than its reporting threshold): not failures
+    let all: Vec<PathBuf> = std::fs::read_dir(&artifacts).map(|d| d.flatten().map(|e| e.path()).filter(|p| p.is_file()).collect()).unwrap_or_default();
+    let name_of = |p: &PathBuf| p.file_name().and_then(|n| n.to_str()).unwrap_or("").to_string();
+    let slow = all.iter().filter(|p| name_of(p).starts_with("slow-unit-")).count();
+    out.counters.insert(format!("fuzz_slow_units:{}", c.target), slow as u64);
+    let arts: Vec<PathBuf> = all.into_iter().filter(|p| !name_of(p).starts_with("slow-unit-")).collect();
     if arts.is_empty() {
         if !output.status.success() && execs == 0 {
             eprintln!("INCONCLUSIVE: fuzz campaign {} failed to run (see {}/campaign.log)", c.target, work.display());
